@@ -3,11 +3,11 @@ package main
 import (
 	"archive/zip"
 	"bytes"
-	"encoding/binary"
 	"crypto"
 	"crypto/ecdsa"
 	"crypto/rsa"
 	"encoding/base64"
+	"encoding/binary"
 	"encoding/hex"
 	"fmt"
 	"io"
